@@ -6,6 +6,7 @@ import (
 	"go/parser"
 	"go/token"
 	"path/filepath"
+	"slices"
 
 	"github.com/bmatcuk/doublestar/v4"
 	MapSet "github.com/deckarep/golang-set/v2"
@@ -46,10 +47,18 @@ func (facade *PackagesFacade) FSet() *token.FileSet {
 	return facade.fileSet
 }
 
+// GetAllSourceFiles returns all known source files, ordered by their absolute path
 func (facade *PackagesFacade) GetAllSourceFiles() []*ast.File {
-	result := make([]*ast.File, 0, len(facade.files))
-	for _, file := range facade.files {
-		result = append(result, file)
+	// Map iteration order is randomized; Callers walk the files in order so it must be stable between runs
+	fileNames := make([]string, 0, len(facade.files))
+	for fileName := range facade.files {
+		fileNames = append(fileNames, fileName)
+	}
+	slices.Sort(fileNames)
+
+	result := make([]*ast.File, 0, len(fileNames))
+	for _, fileName := range fileNames {
+		result = append(result, facade.files[fileName])
 	}
 	return result
 }
